@@ -16,13 +16,117 @@ use std::sync::{Arc, Barrier};
 pub const RULE: &str = "generated: a corpus of N requests (valid ones from the completeness generator on both carriers with all options, and defective ones from the C13 catalogue) with their configurations. The OUTCOME of one validation is (Ok | error kind, code, status; returned method, version, URI, headers, body; principal) -- messages are deliberately excluded, divergences in them are only counted. Oracle: outcome digests are equal (i) across 3 repetitions on one thread, (ii) across T in {2,4,8,16} threads released together on a barrier, each validating a different rotation of the corpus concurrently, (iii) in freshly spawned processes (fresh hash seeds) whose 16 threads start COLD, so their first validations race on the lazily initialised global regexes, and (iv) equal to the reference model's verdict where specified. Limit: the thread schedule is the OS's, sampled not enumerated. Non-trivial: a request with >= 3 query parameters or >= 3 signed headers or >= 2 prefix-matching unsigned headers; distinct by request digest.";
 
 pub fn subs() -> Vec<Box<dyn AnySub>> {
-    vec![]
+    vec![Box::new(Sub {
+        name: "interleaved-on-one-thread",
+        quick: 6_000,
+        thorough: 100_000,
+        strat: || {
+            (proptest::collection::vec(super::c14::step(), 2..5), proptest::collection::vec(0u8..8, 1..24))
+                .prop_map(|(steps, order)| Interleave { steps, order })
+                .boxed()
+        },
+        check: check_interleave,
+    })]
+}
+
+#[derive(Clone, Debug, serde::Serialize, serde::Deserialize)]
+pub struct Interleave {
+    pub steps: Vec<super::c14::Step>,
+    /// which of the in-flight validations is polled next (cycled)
+    pub order: Vec<u8>,
+}
+
+/// Re-entrancy with the schedule owned by the harness: several validations are in flight on ONE thread,
+/// each suspended inside its (pending) key lookup, and are polled in a generated order. Each must end
+/// exactly as it does when run alone.
+pub fn check_interleave(il: &Interleave, cc: &mut CaseCtx) -> CheckResult {
+    use scratchstack_aws_signature::{sigv4_validate_request, SignatureOptions, NO_ADDITIONAL_SIGNED_HEADERS};
+    use std::future::Future;
+    use std::pin::Pin;
+    use std::task::{Context, Poll};
+    let mut cases: Vec<Case> = il.steps.iter().map(super::c14::step_case).collect();
+    for c in cases.iter_mut() {
+        c.cfg.reqs = Reqs::default();
+        c.prov.ready_err = None;
+        // every lookup really suspends, so the validations overlap
+        c.prov.call_pending = c.prov.call_pending.max(1);
+    }
+    let mut inputs = Vec::new();
+    for c in &cases {
+        let Ok(h) = exec::build_http(&c.req) else { return Ok(()) };
+        let Some(now) = exec::to_datetime(c.cfg.now) else { return Ok(()) };
+        inputs.push((h, now));
+    }
+    let alone: Vec<exec::Outcome> = cases.iter().map(exec::run).collect();
+    let mut provs: Vec<exec::Prov> = cases.iter().map(|c| exec::Prov::new(c.prov.clone())).collect();
+    let mut results: Vec<Option<exec::Res>> = vec![None; cases.len()];
+    let r = std::panic::catch_unwind(std::panic::AssertUnwindSafe(|| {
+        let mut futs: Vec<Option<Pin<Box<dyn Future<Output = _> + '_>>>> = Vec::new();
+        for ((c, p), (h, now)) in cases.iter().zip(provs.iter_mut()).zip(inputs.into_iter()) {
+            let opts = SignatureOptions { s3: c.cfg.s3, url_encode_form: c.cfg.fold };
+            futs.push(Some(Box::pin(sigv4_validate_request(h, &c.cfg.region, &c.cfg.service, p, now, &NO_ADDITIONAL_SIGNED_HEADERS, opts))));
+        }
+        let waker = noop_waker();
+        let mut cx = Context::from_waker(&waker);
+        let mut k = 0usize;
+        let mut budget = 100_000;
+        while futs.iter().any(|f| f.is_some()) && budget > 0 {
+            budget -= 1;
+            let want = il.order[k % il.order.len()] as usize % futs.len();
+            k += 1;
+            // next unfinished validation at or after `want`
+            let idx = (0..futs.len()).map(|d| (want + d) % futs.len()).find(|i| futs[*i].is_some()).unwrap();
+            if let Poll::Ready(v) = futs[idx].as_mut().unwrap().as_mut().poll(&mut cx) {
+                results[idx] = Some(exec::convert_result(v));
+                futs[idx] = None;
+            }
+        }
+    }));
+    if let Err(p) = r {
+        let loc = exec::take_panic_location().unwrap_or_default();
+        return Err(Failure::new(&format!("panic:{}", loc), format!("interleaved validations panicked: {} @ {}", exec::panic_message(p), loc)));
+    }
+    let mut any_ok = false;
+    for (i, res) in results.iter().enumerate() {
+        let Some(res) = res else { return Err(Failure::new("hang", "an interleaved validation did not complete")) };
+        let same = match (res, &alone[i].res) {
+            (exec::Res::Ok(a), exec::Res::Ok(b)) => a.uri == b.uri && a.body == b.body && a.headers == b.headers,
+            (exec::Res::Err(a), exec::Res::Err(b)) => a.kind == b.kind && a.status == b.status,
+            _ => false,
+        };
+        any_ok |= res.is_ok();
+        if !same {
+            return Err(Failure::new(
+                "interleaving-changes-outcome",
+                format!("validation {} of {} in flight on one thread ended as {} but alone as {} (poll order {:?})", i, results.len(), res.short(), alone[i].res.short(), il.order),
+            ));
+        }
+    }
+    cc.class("interleaved");
+    cc.class_if(any_ok, "with-accepted-request");
+    cc.class_if(cases.len() >= 3, ">=3-in-flight");
+    cc.nontrivial(digest_of(&[format!("{:?}", il).as_bytes()]));
+    if any_ok {
+        cc.sample(json!({"in_flight": cases.len(), "poll_order": il.order, "outcomes": results.iter().map(|r| r.as_ref().map(|x| x.short().chars().take(60).collect::<String>())).collect::<Vec<_>>()}));
+    }
+    Ok(())
+}
+
+fn noop_waker() -> std::task::Waker {
+    use std::task::{RawWaker, RawWakerVTable, Waker};
+    fn clone(_: *const ()) -> RawWaker {
+        RawWaker::new(std::ptr::null(), &VT)
+    }
+    fn noop(_: *const ()) {}
+    static VT: RawWakerVTable = RawWakerVTable::new(clone, noop, noop, noop);
+    unsafe { Waker::from_raw(RawWaker::new(std::ptr::null(), &VT)) }
 }
 
 pub fn corpus(seed: u64, n: usize) -> Vec<Case> {
     let mut runner = TestRunner::new(Config { rng_seed: RngSeed::Fixed(mix(seed, "c18-corpus", 0)), failure_persistence: None, ..Config::default() });
     let st_valid = plan(PlanOpts { rich_reqs: true, ..PlanOpts::default() });
     let st_def = (any::<bool>(), proptest::collection::vec(any::<u16>(), 1..3), any::<u8>());
+    let st_dup = (plan(quiet_opts()), any::<u16>(), any::<bool>(), any::<bool>(), any::<bool>());
     let mut out = Vec::with_capacity(n);
     while out.len() < n {
         if out.len() % 3 != 2 {
@@ -43,6 +147,13 @@ pub fn corpus(seed: u64, n: usize) -> Vec<Case> {
                         out.push(Case { req: signed.req, cfg: q.cfg.clone(), prov: q.provider() });
                     }
                 }
+            }
+        } else if out.len() % 5 == 4 {
+            // requests with duplicated authentication inputs (which of two Date headers wins must not depend on hash order)
+            let (p, k, b1, b2, b3) = st_dup.new_tree(&mut runner).unwrap().current();
+            let dc = super::c19::make_case(p, k, b1, b2, b3, 60);
+            if let Some(case) = super::c19::build_case(&dc) {
+                out.push(case);
             }
         } else {
             let (q, sel, variant) = st_def.new_tree(&mut runner).unwrap().current();
